@@ -1,5 +1,147 @@
+/- Driver front-end of the Perm family (C17): (de)serialisation only; every answer is computed by the
+   definitions of SuppModel/Perm/Model.lean.  A request carries the hash order as a rank table
+   (`SetOrder.byRank`) or as "ident" / "rev". -/
 import SuppModel.Drv.Util
+import SuppModel.Perm.Model
 namespace SuppModel.Drv.Perm
-open Lean SuppModel.Drv
-def handle (_j : Json) : Json := errJson "driver for Perm not built yet"
+open Lean SuppModel.Drv SuppModel.Perm
+
+def toStr (s : String) : Str := s.toList.map Char.toNat
+def ofStr (s : Str) : String := String.ofList (s.map Char.ofNat)
+
+def natAt (a : Array Json) (i : Nat) : Except String Nat := (a[i]?.getD Json.null).getNat?
+def strAt (a : Array Json) (i : Nat) : Except String String := (a[i]?.getD Json.null).getStr?
+
+def altOfJson (j : Json) : Except String Alt := do
+  if let .ok s := jstr j "u" then return .undef (toStr s)
+  let a ← jarr j "n"
+  return .name (← natAt a 0) (toStr (← strAt a 1)) (← natAt a 2, ← natAt a 3) (← natAt a 4, ← natAt a 5) (toStr (← strAt a 6))
+
+def mnameOf (alts : List Alt) : MName := ⟨alts, (alts.head?.map Alt.nm).getD []⟩
+
+def itemOfJson (j : Json) : Except String Item := do
+  if let .ok a := jarr j "m" then
+    let id ← natAt a 0
+    let alts ← (← (a[1]?.getD Json.null).getArr?).toList.mapM altOfJson
+    return .multi id (mnameOf alts)
+  return .alt (← altOfJson j)
+
+def altId : Alt → Nat
+  | .undef _ => 0
+  | .name i _ _ _ _ => i
+
+def itemId : Item → Nat
+  | .alt a => altId a
+  | .multi i _ => i
+
+def rankTable (j : Json) (k : String) : Except String (List (Nat × Nat)) := do
+  match j.getObjVal? k with
+  | .error _ => return []
+  | .ok v =>
+    (← v.getArr?).toList.mapM fun p => do
+      let pr ← p.getArr?
+      return (← natAt pr 0, ← natAt pr 1)
+
+def rankOf (t : List (Nat × Nat)) (i : Nat) : Nat := (t.lookup i).getD 0
+
+def orderOf {α : Type} (j : Json) (key : String) (id : α → Nat) : Except String (SetOrder α) := do
+  match j.getObjVal? (key ++ "_mode") with
+  | .ok (.str "ident") => return SetOrder.ident α
+  | .ok (.str "rev") => return SetOrder.rev α
+  | _ =>
+    let t ← rankTable j key
+    return SetOrder.byRank (fun a => rankOf t (id a))
+
+def strOrderOf (j : Json) : Except String (SetOrder Str) := do
+  match j.getObjVal? "rank_str_mode" with
+  | .ok (.str "ident") => return SetOrder.ident Str
+  | .ok (.str "rev") => return SetOrder.rev Str
+  | _ =>
+    match j.getObjVal? "rank_str" with
+    | .error _ => return SetOrder.ident Str
+    | .ok v =>
+      let t ← (← v.getArr?).toList.mapM fun p => do
+        let pr ← p.getArr?
+        return (toStr (← strAt pr 0), ← natAt pr 1)
+      return SetOrder.byRank (fun s => (t.lookup s).getD 0)
+
+def altJson (a : Alt) : Json := Json.num (altId a)
+
+def valJson : Val → Json
+  | .single a => Json.mkObj [("s", altJson a)]
+  | .multi m => Json.mkObj [("m", Json.arr (m.altNames.map altJson).toArray)]
+
+def errName : PyErr → String
+  | .indexError => "IndexError"
+
+def locJson (l : LocOut) : Json :=
+  Json.mkObj [("loc", Json.arr #[Json.num l.loc.1, Json.num l.loc.2]), ("file", Json.str (ofStr l.file))]
+
+def entryJson : LocEntry → Json
+  | .one l => locJson l
+  | .many ls => Json.arr (ls.map locJson).toArray
+
+def handleE (j : Json) : Except String Json := do
+  let op ← jstr j "op"
+  match op with
+  | "multiname" =>
+    let names ← (← jarr j "names").toList.mapM itemOfJson
+    let s ← orderOf (α := Alt) j "rank_alt" altId
+    let legacy := (j.getObjValAs? Bool "legacy").toOption.getD false
+    let r := if legacy then multiNameLegacy s names else multiName s names
+    let noties := Json.bool (NoTies names)
+    match r with
+    | .error e => return Json.mkObj [("err", Json.str (errName e)), ("noties", noties)]
+    | .ok m =>
+      let loc := if legacy then locationLegacy s (fun a => [.one a]) names else location s (fun a => [.one a]) names
+      let first := match firstName (.multi m) with
+        | .ok a => altJson a
+        | .error e => Json.str (errName e)
+      return Json.mkObj [("alts", Json.arr (m.altNames.map altJson).toArray), ("name", Json.str (ofStr m.name)),
+        ("valid", Json.arr (m.validNames.map altJson).toArray), ("has_undefined", Json.bool m.hasUndefined),
+        ("first", first),
+        ("location", match loc with | .ok es => Json.arr (es.map entryJson).toArray | .error e => Json.str (errName e)),
+        ("noties", noties)]
+  | "parent" =>
+    let tables ← (← jarr j "tables").toList.mapM fun t => do
+      (← t.getArr?).toList.mapM fun p => do
+        let pr ← p.getArr?
+        return (toStr (← strAt pr 0), ← itemOfJson (pr[1]?.getD Json.null))
+    let h : Hash := { strs := ← strOrderOf j, items := ← orderOf (α := Item) j "rank_item" itemId,
+                      alts := ← orderOf (α := Alt) j "rank_alt" altId }
+    let noties := Json.bool (NoTiesJoin tables)
+    match parentNames h tables with
+    | .error e => return Json.mkObj [("err", Json.str (errName e)), ("noties", noties)]
+    | .ok t =>
+      let exported := match exportedNames t with
+        | .ok ex => Json.arr (ex.map (fun (k, a) => Json.arr #[Json.str (ofStr k), altJson a])).toArray
+        | .error e => Json.str (errName e)
+      return Json.mkObj [("rows", Json.arr (t.map (fun (k, v) => Json.arr #[Json.str (ofStr k), valJson v])).toArray),
+        ("exported", exported), ("noties", noties)]
+  | "assist" =>
+    let names ← (← jarr j "names").toList.mapM (fun x => do return toStr (← x.getStr?))
+    let marked ← (← jarr j "marked").toList.mapM (fun x => do return toStr (← x.getStr?))
+    let s ← strOrderOf j
+    return Json.mkObj [("sorted", Json.arr ((assist s (fun n => marked.contains n) names).map (fun n => Json.str (ofStr n))).toArray)]
+  | "composite" =>
+    let names ← (← jarr j "names").toList.mapM itemOfJson
+    let s ← orderOf (α := Alt) j "rank_alt" altId
+    -- values: [[alt id, [[attr, target alt]...]] ...]
+    let vals ← (← jarr j "values").toList.mapM fun p => do
+      let pr ← p.getArr?
+      let attrs ← (← (pr[1]?.getD Json.null).getArr?).toList.mapM fun q => do
+        let qr ← q.getArr?
+        return (toStr (← strAt qr 0), ← altOfJson (qr[1]?.getD Json.null))
+      return (← natAt pr 0, attrs)
+    let attr := toStr (← jstr j "attr")
+    match compositeLookup s (fun a => vals.lookup (altId a)) names attr with
+    | .error e => return Json.mkObj [("err", Json.str (errName e))]
+    | .ok none => return Json.mkObj [("attr", Json.null)]
+    | .ok (some a) => return Json.mkObj [("attr", altJson a)]
+  | _ => throw ("unknown op " ++ op)
+
+def handle (j : Json) : Json :=
+  match handleE j with
+  | .ok r => r
+  | .error e => errJson e
 end SuppModel.Drv.Perm
